@@ -52,6 +52,7 @@ class HeapMixin:
 
     # ------------------------------------------------------------ attributes
     def getattr(self, v, attr, frame=None):
+        v = self.force(v)
         if isinstance(v, VRef) and v.oid in self.run.old_alias:
             return self.oldify(self.getattr_(v, attr, frame), v.oid)
         return self.getattr_(v, attr, frame)
@@ -166,6 +167,7 @@ class HeapMixin:
         raise E.Unsupported(f"attribute {attr} of opaque value")
 
     def setattr(self, v, attr, val):
+        v = self.force(v)
         if isinstance(v, VRef) and v.kind == "obj":
             rec = self.run.rec(v.oid)
             if rec.frozen:
@@ -234,6 +236,7 @@ class HeapMixin:
 
     def key_of(self, k):
         """hashable python key for a concrete symbolic value, else None"""
+        k = self.force(k)
         if isinstance(k, VStr):
             t = E.simp(k.t)
             if z3.is_string_value(t):
@@ -265,6 +268,12 @@ class HeapMixin:
     # ------------------------------------------------------------ equality of values
     def eq(self, a, b):
         """z3 Bool: a == b under Python semantics for the supported kinds"""
+        for x, y in ((a, b), (b, a)):
+            if isinstance(x, VOpt) and x.forced is None and isinstance(y, VNone):
+                return x.isnone
+        if isinstance(a, VOpt) and isinstance(b, VOpt) and a is b:
+            return z3.BoolVal(True)
+        a, b = self.force(a), self.force(b)
         if isinstance(a, VNone) or isinstance(b, VNone):
             return z3.BoolVal(isinstance(a, VNone) and isinstance(b, VNone))
         num = (VInt, VReal, VBool)
@@ -345,6 +354,7 @@ class HeapMixin:
     def inject(self, v):
         """typed value -> Any. The injections are made injective (and kind-disjoint) by instance axioms with inverse functions."""
         run = self.run
+        v = self.force(v)
 
         def inj(fname, sort, term, kind):
             t = z3.Function(fname, sort, AnySort)(term)
@@ -455,9 +465,13 @@ class HeapMixin:
                     try:
                         env = dict(penv)
                         env["x"] = ref_
-                        self.run.assume(self.truthy(self.eval(node, E.Frame("<spec>", None, env, None, "elemfact"))))
+                        self.run.assume(self.truthy(self.eval(node, E.Frame("<spec>", None, env, None, "elemfact"))), persist=True)
                     finally:
                         self.pure -= 1
+            for ent in getattr(self.run, "index_facts", {}).get(r.sym, []):
+                if nm not in ent[1]:
+                    ent[1].add(nm)
+                    ent[0](ref_, epos if not isinstance(epos, int) else z3.IntVal(epos))
             return ref_
         if r.elem[0] == "callback":
             return VCallback(f"{r.sym}[{pos}]")
@@ -661,6 +675,7 @@ class HeapMixin:
 
     # ------------------------------------------------------------ subscripts
     def subscript(self, v, idx):
+        v, idx = self.force(v), self.force(idx)
         if isinstance(v, VRef) and v.oid in self.run.old_alias:
             return self.oldify(self.subscript_(v, idx), v.oid)
         return self.subscript_(v, idx)
@@ -702,6 +717,11 @@ class HeapMixin:
 
     def slice_of(self, v, lo, hi):
         """v[lo:hi] with lo/hi VInt or None"""
+        v = self.force(v)
+        lo = self.force(lo) if lo is not None else None
+        hi = self.force(hi) if hi is not None else None
+        lo = None if isinstance(lo, VNone) else lo
+        hi = None if isinstance(hi, VNone) else hi
         if isinstance(v, VStr):
             n = z3.Length(v.t)
             l = self.norm_index(lo, n, 0)
